@@ -26,7 +26,8 @@ static const char* kRel[NN] = {"", "a", "b", "a/x", "a/y"};
 static const char* kName[NN] = {"", "a", "b", "x", "y"};
 static const int kParent[NN] = {-1, 0, 0, 1, 1};
 static void runOnce(bool dry) {
-  SymKill p;
+  // (plugin, context and ruleset are never destroyed: teardown is not a subject of these properties)
+  SymKill& p = *new SymKill;
   p.setName("k");
 #if H_PAT == 0
   p.cgroups_.insert(CgroupPath("/c", "a"));
@@ -39,9 +40,9 @@ static void runOnce(bool dry) {
 #endif
   p.recursive_ = vf_cfg_get(CFG_FLAGS, 0); p.dry_ = dry; p.kernelKill_ = vf_cfg_get(CFG_FLAGS, 2); p.reapMemory_ = vf_cfg_get(CFG_FLAGS, 3); p.alwaysContinue_ = vf_cfg_get(CFG_FLAGS, 4);
   if (vf_cfg_get(CFG_FLAGS, 5)) p.postActionDelay_ = (int)vf_cfg_get(CFG_FLAGS, 5) - 1;
-  OomdContext ctx;
+  OomdContext& ctx = *new OomdContext;
   std::vector<std::unique_ptr<Engine::DetectorGroup>> nodg; std::vector<std::unique_ptr<Engine::BasePlugin>> noact;
-  Engine::Ruleset rs("r0", std::move(nodg), std::move(noact));
+  Engine::Ruleset& rs = *new Engine::Ruleset("r0", std::move(nodg), std::move(noact));
   ctx.setActionContext({"r0", "g0", "u0", std::chrono::steady_clock::now() + std::chrono::seconds(5), std::nullopt});
   ctx.setInvokingRuleset(&rs);
   vf_event(EV_OP, dry ? 2 : 1, 0, 0, 0);
@@ -61,8 +62,11 @@ extern "C" void harness(void) {
 #endif
   for (int n = 1; n < H_NODES; n++) {
     vfw::Node& nd = vfw::nodes[n];
-    nd.populated = vf_nd(K_NODE + n * 8 + 1, 0, 1); nd.oom_group = vf_nd(K_NODE + n * 8 + 2, 0, 1); nd.xattrs = (unsigned)vf_nd(K_NODE + n * 8 + 3, 0, 15);
-    nd.cur = vf_nd(K_NODE + n * 8 + 4, 0, 3); nd.pids_current = vf_nd(K_NODE + n * 8 + 7, 0, 3);
+    // ranking inputs (metric, kill preference) are concrete per variant: a symbolic rank order makes every later path
+    // string symbolic (see DESIGN.md 10); everything the walk and the kill itself depend on stays symbolic
+    static const int kCur[NN] = H_CUR; static const int kXa[NN] = H_XA;
+    nd.populated = vf_nd(K_NODE + n * 8 + 1, 0, 1); nd.oom_group = vf_nd(K_NODE + n * 8 + 2, 0, 1); nd.xattrs = (unsigned)kXa[n];
+    nd.cur = kCur[n]; nd.pids_current = vf_nd(K_NODE + n * 8 + 7, 0, 3);
     nd.npids = (int)vf_nd(K_NODE + n * 8 + 5, 0, H_NPIDS);
     int64_t packed = 0;
     for (int k = 0; k < H_NPIDS; k++) { int zero = (int)vf_nd(K_PID + n * 4 + k, 0, H_PIDZERO); nd.pids[k] = zero ? 0 : PID_OF(n, k); packed |= (int64_t)nd.pids[k] << (10 * k); }
